@@ -299,9 +299,10 @@ def _slice(t, lo, w):
                 rest = [x for x in t[2:] if x is not cs[0]]
                 full = nary("mul", t[1], rest + [const(t[1], c >> lo)])
                 return slice_(full, 0, w)
-    if lo > 0 and op in ("add", "sub") and lo + w < t[1]:
-        # bits below lo+w of a sum depend only on the operands' bits below lo+w: narrow the adder, so that
-        # the same arithmetic carried out in a wider type has the same normal form
+    if lo > 0 and op in ("add", "sub") and lo + w < t[1] and all(_is_extension(x, lo + w) for x in t[2:]):
+        # bits below lo+w of a sum depend only on the operands' bits below lo+w: when the operands are
+        # merely zero/sign extended beyond that, narrow the adder, so that the same arithmetic carried out in
+        # a wider type has the same normal form (sums of genuinely wide operands keep their shared adder)
         k = lo + w
         if op == "add":
             inner = nary("add", k, [slice_(x, 0, k) for x in t[2:]])
@@ -316,6 +317,17 @@ def _slice(t, lo, w):
             inner = mk("sdiv", k, slice_(t[2], 0, k), const(k, t[3][2]))
             return slice_(inner, 0, w) if w < k else inner
     return mk("slice", w, t, lo)
+
+
+def _is_extension(x, k):
+    """bits [k, width) of x are a zero or sign extension of its low k bits (or constant)"""
+    if x[0] == "const":
+        return True
+    hi = slice_(x, k, x[1] - k)
+    if hi[0] == "const":
+        return True
+    m = msb(slice_(x, 0, k))
+    return (hi[0] == "rep" and hi[2] is m) or hi is m
 
 
 def signed_width(t):
